@@ -367,3 +367,43 @@ pub fn guard_cover_inputs(quick: bool) -> Vec<Vec<u8>> {
     }
     out
 }
+
+
+/// The buffer life cycle, systematically: write 1 ends inside token A (tail buffered), write 2 completes A and ends
+/// deep inside a long token B (buffer partly consumed, long remainder kept), write 3 completes B and ends in text
+/// (buffer emptied), write 4 ends inside token C (buffered again), write 5 the rest.  Returns (input, schedules).
+pub fn buffer_cycle_cases() -> Vec<(Vec<u8>, Vec<Vec<usize>>)> {
+    let mut out = Vec::new();
+    for b_kind in ["name", "attr", "comment"] {
+        for blen in [140usize, 300, 420] {
+            let a: &[u8] = b"<a href=x id=first>";
+            let mut btok = Vec::new();
+            match b_kind {
+                "name" => { btok.push(b'<'); for j in 0..blen { btok.push(b'a' + (j % 26) as u8); } btok.extend_from_slice(b" k=v>"); }
+                "attr" => { btok.extend_from_slice(b"<img alt=\""); for j in 0..blen { btok.push(b'a' + (j % 26) as u8); } btok.extend_from_slice(b"\">"); }
+                _ => { btok.extend_from_slice(b"<!--"); for j in 0..blen { btok.push(b'k' + (j % 5) as u8); } btok.extend_from_slice(b"-->"); }
+            }
+            let c: &[u8] = b"<b class=z data-q='r'>";
+            let mut input = b"pre ".to_vec();
+            let a0 = input.len(); input.extend_from_slice(a);
+            input.extend_from_slice(b"t1");
+            let b0 = input.len(); input.extend_from_slice(&btok);
+            let t0 = input.len(); input.extend_from_slice(b" some text here ");
+            let c0 = input.len(); input.extend_from_slice(c);
+            input.extend_from_slice(b"end</b></a>");
+            let mut scheds = Vec::new();
+            for c1 in [a0 + 1, a0 + 3, a0 + a.len() - 1] {
+                for c2 in [b0 + 130, b0 + btok.len() / 2 + 66, b0 + btok.len() - 1] {
+                    for c3 in [t0, t0 + 5] {
+                        for c4 in [c0 + 1, c0 + 2, c0 + 9, c0 + c.len() - 1] {
+                            if c2 >= t0 { continue; }
+                            scheds.push(vec![c1, c2, c3, c4]);
+                        }
+                    }
+                }
+            }
+            out.push((input, scheds));
+        }
+    }
+    out
+}
